@@ -126,8 +126,14 @@ TOpenRO == IsEvent("open_ro") /\ OpenRO /\ Matches /\ Observed(Ev.obs)
 TClose == /\ IsEvent("close")
           /\ Close(NthOrZero(NewLens, 1), cpe)
           /\ Matches /\ Observed(Ev.obs)
+          /\ Chk("ro.file", (Has(Ev, "x") /\ Has(Ev.x, "ro_closed_unchanged")) => Ev.x.ro_closed_unchanged)   \* C18: also when the read-only handle is dropped
 
 TAbandon == IsEvent("abandon") /\ Abandon /\ Observed(Ev.obs)
+\* the closed file gets the lock-owner metadata an older release kept in reserved header bytes: nothing logical changes
+TLegacy == /\ IsEvent("legacy_lock") /\ hdl = "none" /\ ResOk
+           /\ last' = Obs("legacy_lock", "ok", 0)
+           /\ UNCHANGED <<exists, frames, pend, wal, hdl, snap, dirty, pins, noAuto, ticket, cpe, acked>>
+           /\ Observed(Ev.obs)
 
 Emb(a) == IF Has(a, "emb") THEN a.emb ELSE 0
 MetaOf(a) == [fld \in MetaFields |-> IF Has(a, "meta") /\ Has(a.meta, fld) THEN a.meta[fld] ELSE 0]
@@ -318,7 +324,7 @@ TCorrupt ==
      /\ (Has(e, "ro") /\ e.ro.verify.ok /\ e.ro.verify.val = "Passed" /\ e.ro.open.ok =>
             Chk("corrupt.verify", TableEqOrErr(frames, e.ro.obs) \/ TableEqOrErr(tab, e.ro.obs)))
 
-TraceStep == \/ TReset \/ TCreate \/ TCommit \/ TOpen \/ TOpenRO \/ TClose \/ TAbandon
+TraceStep == \/ TReset \/ TCreate \/ TCommit \/ TOpen \/ TOpenRO \/ TClose \/ TAbandon \/ TLegacy
              \/ TPut \/ TUpdate \/ TDelete \/ TVacuum \/ TTicket \/ TSignedTicket \/ TBindOnly \/ TBind \/ TUnbind \/ TBeginBatch \/ TEndBatch \/ TCommitSkip \/ TFinalize
              \/ TTimeline \/ TByUri \/ TVecSet \/ TVerify \/ TDoctor
              \/ TBroken
@@ -375,6 +381,9 @@ TSearch ==
                LET M == {i \in 0..(Len(tab) - 1) : tab[i + 1].st = "active" /\ a.single \in AttrsOf(tab, i).atoms} IN
                (Cardinality(M) <= a.top_k /\ ~(M \subseteq FS)) =>
                    IF "D09_sketch_recall" \in Defects /\ ~(Has(a, "no_sketch") /\ a.no_sketch) THEN Dev("D09_sketch_recall")
+                   \* as built, top_k counts snippet slices, not frames: documents that yield several slices fill the page and
+                   \* push other matching frames to the next page (the response is full and names some frame more than once)
+                   ELSE IF "D09_slices_crowd" \in Defects /\ n = a.top_k /\ Cardinality(FS) < n THEN Dev("D09_slices_crowd")
                    ELSE Chk("search.recall", FALSE))
          \* C16: the pages partition the result stream
          /\ (Has(v, "pages") =>
